@@ -156,7 +156,9 @@ fn check_view(desc: &Value, exp: &Expect) -> Option<(String, String)> {
             let c_n = 32usize;
             let r = (l + c_n - 1) / c_n;
             let wild = (*k - 1) as u64;
-            if ndim != 2 || format != "B" || shape.len() != 2 || shape[0] != c_n as i64 || (shape[1] as usize) < r {
+            // the logical table of a striped sequence is columns x sequence rows: look-ahead rows added for
+            // scoring are an internal detail and must not show (they never do on the pinned tree)
+            if ndim != 2 || format != "B" || shape.len() != 2 || shape[0] != c_n as i64 || shape[1] as usize != r {
                 return bad("shape", format!("striped sequence of {} symbols ({} sequence rows) exported as ndim={} format={} shape={:?}", l, r, ndim, format, shape));
             }
             let rows_shown = shape[1] as usize;
@@ -919,7 +921,7 @@ impl Sim for PyViewSim {
         vec![
             "Logical-content models are built on the Rust side with the core library from the same inputs (CountMatrix::from_sequences, to_freq(0.0).to_weight(None).to_scoring(), to_score_distribution, brute-force f32 scores); float comparisons use a 1e-4 relative band, enough to tell which cell a value came from.".into(),
             "A ScoringMatrix view may be laid out as (symbols, positions) or (positions, symbols); either is accepted as long as every element is the matrix entry it stands for.".into(),
-            "A StripedSequence view may show the sequence rows only or the sequence rows plus look-ahead rows; every shown cell must hold the logical symbol.".into(),
+            "A StripedSequence view shows exactly the sequence rows (columns x ceil(L/32)); look-ahead rows added for scoring are internal and must not be visible.".into(),
             "An object that refuses to export a buffer by raising an ordinary exception (e.g. BufferError on an empty matrix) is accepted.".into(),
             "Python's own allocations do not go through the allocator seam; the Rust-side buffers that the views expose do.".into(),
         ]
